@@ -5,6 +5,7 @@ package main
 import (
 	"fmt"
 	"go/types"
+	"sort"
 	"strings"
 
 	"golang.org/x/tools/go/ssa"
@@ -180,6 +181,9 @@ func (ex *Exec) doCall(st *State, in ssa.Instruction, c *ssa.CallCommon, fnv Val
 	if ci != nil {
 		if con, ok := ex.db.Contracts[ci.key]; ok {
 			con.Used = true
+			if c.IsInvoke() && con.Dispatch {
+				return ex.dispatchInvoke(st, in, site, c, con, ci, args, res)
+			}
 			return ex.applyContract(st, in, site, con, ci, args, res)
 		}
 		if ci.fn != nil && ci.fn.Parent() != nil && ci.fn.Blocks != nil && len(ci.fn.FreeVars) == 0 {
@@ -243,6 +247,59 @@ func (ex *Exec) doCall(st *State, in ssa.Instruction, c *ssa.CallCommon, fnv Val
 	}
 	ex.bindResult(st, res, rv)
 	return append(out, st)
+}
+
+// dispatchInvoke handles a call through an interface whose method contract says `dispatch`: one path per
+// implementation in /repo that has its own contract (dynamic type assumed, concrete contract applied to the
+// unboxed receiver) plus a residual path for every other dynamic type, which uses the interface's contract.
+func (ex *Exec) dispatchInvoke(st *State, in ssa.Instruction, site string, c *ssa.CallCommon, icon *Contract, ici *calleeInfo, args []Val, res ssa.Value) []*State {
+	it, _ := c.Value.Type().Underlying().(*types.Interface)
+	var keys []string
+	for k := range ex.funcs {
+		keys = append(keys, k)
+	}
+	sort.Strings(keys)
+	var out []*State
+	var others []string
+	recv := args[0]
+	for _, k := range keys {
+		fn := ex.funcs[k]
+		if fn.Name() != c.Method.Name() || fn.Signature.Recv() == nil || fn.Synthetic != "" {
+			continue
+		}
+		rt := fn.Signature.Recv().Type()
+		if it == nil || !types.Implements(rt, it) {
+			continue
+		}
+		con, ok := ex.db.Contracts[k]
+		if !ok {
+			continue
+		}
+		con.Used = true
+		tc := ex.ctx.typeConst(rt)
+		isT := sx("=", sx("typeof", recv.T), tc)
+		others = append(others, smtNot(isT))
+		ps := st.clone()
+		ps.assume(isT)
+		ps.notes = append(ps.notes, "dynamic type "+types.TypeString(rt, nil))
+		_, unbox := ex.ctx.boxFns(rt)
+		rv := Val{T: sx(unbox, recv.T), S: ex.ctx.sortFor(rt), Ty: rt}
+		ex.assumeLoaded(ps, rv)
+		cargs := append([]Val{rv}, args[1:]...)
+		cci := &calleeInfo{key: k, sig: fn.Signature, fn: fn}
+		if fn.Pkg != nil {
+			cci.pkg = fn.Pkg.Pkg
+		}
+		for _, p := range fn.Params {
+			cci.pnames = append(cci.pnames, p.Name())
+		}
+		out = append(out, ex.applyContract(ps, in, site, con, cci, cargs, res)...)
+	}
+	st.assume(smtAnd(others...))
+	if len(others) > 0 {
+		st.notes = append(st.notes, "other dynamic type")
+	}
+	return append(out, ex.applyContract(st, in, site, icon, ici, args, res)...)
 }
 
 func pkgOrKey(ci *calleeInfo) string {
@@ -397,10 +454,31 @@ func (ex *Exec) applyContract(st *State, in ssa.Instruction, site string, con *C
 			}
 		}
 	}
+	var declaredFresh []string
+	env.callFresh = &declaredFresh
 	for _, cl := range con.clauses("ensures") {
 		st.assume(ex.evalClause(env, cl, con))
 	}
+	env.callFresh = nil
+	for _, t := range declaredFresh {
+		dup := false
+		for _, f := range st.fresh {
+			if f == t {
+				dup = true
+			}
+		}
+		if !dup {
+			st.fresh = append(st.fresh, t)
+		}
+	}
 	ex.bindResult(st, res, r)
+	// remember what the (last) call to this callee returned on this path: returned(f, i) in ensures_local
+	nr := map[string]Val{}
+	for k, v := range st.callRets {
+		nr[k] = v
+	}
+	nr[lastName(con.Key)] = r
+	st.callRets = nr
 	if deadcodeProbe && ex.cur != nil {
 		k := ex.cur.short + "@" + site
 		if probeCount[k] < 2000 {
